@@ -1397,6 +1397,7 @@ func ruleRecursion(p *Program, r *Reporter) {
 // (parameter or receiver of a type of package ast) and every call back into
 // the component passes a field — or an element of a field — of that node.
 func structuralTreeWalk(comp []*ssa.Function) bool {
+	same := map[*ssa.Function][]*ssa.Function{}
 	in := map[*ssa.Function]bool{}
 	for _, f := range comp {
 		in[f] = true
@@ -1454,11 +1455,37 @@ func structuralTreeWalk(comp []*ssa.Function) bool {
 				if arg == nil || directPart(arg, node, 0) != "" {
 					return false
 				}
+				// the node handed on as it is (to a function that deals with
+				// this kind of node) is no descent: remember the edge
+				if !strictPart(arg, node, 0) {
+					same[f] = append(same[f], callee)
+				}
 			}
 		}
 		_ = idx
 	}
-	return true
+	// a cycle of calls that never descends would not be bounded by the tree
+	color := map[*ssa.Function]int{}
+	cyc := false
+	var dfs func(x *ssa.Function)
+	dfs = func(x *ssa.Function) {
+		color[x] = 1
+		for _, c := range same[x] {
+			switch color[c] {
+			case 0:
+				dfs(c)
+			case 1:
+				cyc = true
+			}
+		}
+		color[x] = 2
+	}
+	for _, f := range comp {
+		if color[f] == 0 {
+			dfs(f)
+		}
+	}
+	return !cyc
 }
 
 // recursionBoundedBy: components whose depth is bounded by a structure whose
@@ -2431,9 +2458,18 @@ func ruleCtxFlow(p *Program, r *Reporter) {
 	// machine built by vm.New
 	vmSet := methodOf(p, "vm", "VM", "SetContext")
 	var newCalls []ssa.CallInstruction
-	newCalls = callsTo(a.prepare, a.vmNew)
+	// the machine is built in Prepare itself or in a function Prepare calls
+	builder := a.prepare
+	if len(callsTo(builder, a.vmNew)) == 0 {
+		for _, g := range staticCalleesWithin(p, a.prepare, 2) {
+			if len(callsTo(g, a.vmNew)) > 0 {
+				builder = g
+			}
+		}
+	}
+	newCalls = callsTo(builder, a.vmNew)
 	var setCalls []ssa.CallInstruction
-	for _, c := range callsTo(a.prepare, vmSet) {
+	for _, c := range callsTo(builder, vmSet) {
 		// argument is a load of Eval.context
 		if u, ok := c.Common().Args[1].(*ssa.UnOp); ok && fieldKey(u.X) == "evalfilter.Eval.context" {
 			setCalls = append(setCalls, c)
